@@ -85,8 +85,25 @@ def run(ctx):
         if lhs_diff is None:
             ctx.undecided("R-C18-1", key, "convergence comparison found but operand roles not recognised", loc_str(fl.atom_span(a)))
         else:
-            good = (lhs_diff and ((op in ("Lt", "Le") and val is True) or (op in ("Gt", "Ge") and val is False))) or ((not lhs_diff) and ((op in ("Gt", "Ge") and val is True) or (op in ("Lt", "Le") and val is False)))
-            ctx.require(good, "R-C18-1", key, "Ok(..) is returned only when difference < tolerance-derived bound", "Ok(..) is returned when the difference is NOT below the bound (comparison %s taken %s)" % (op, val), loc_str(s.span))
+            def is_good(v_):
+                return (lhs_diff and ((op in ("Lt", "Le") and v_ is True) or (op in ("Gt", "Ge") and v_ is False))) or ((not lhs_diff) and ((op in ("Gt", "Ge") and v_ is True) or (op in ("Lt", "Le") and v_ is False)))
+
+            good = is_good(val)
+            # ... and on EVERY path: with the "converged" edge of that comparison deleted, the Ok(..) must be unreachable
+            # (`if diff < bound || last_iteration { return Ok(x) }` has another way in)
+            if good and not isinstance(a, tuple):
+                at_ = fl.atom(a)
+                conv_succ = at_["otherwise"] if is_good(True) else dict(at_["targets"]).get(0)
+                neg_ = False
+                tt_ = at_["test"]
+                while isinstance(tt_, tuple) and tt_[0] == "unop" and tt_[1] == "Not":
+                    neg_ = not neg_
+                    tt_ = tt_[2]
+                if neg_:
+                    conv_succ = dict(at_["targets"]).get(0) if is_good(True) else at_["otherwise"]
+                if conv_succ is not None and bb in b.reach_avoiding_edges([(a, conv_succ)]):
+                    good = False
+            ctx.require(good, "R-C18-1", key, "Ok(..) is returned only when difference < tolerance-derived bound", "Ok(..) can be returned when the difference is NOT below the bound (comparison %s; a path into the return avoids its converged edge)" % op, loc_str(s.span))
         ctx.require(bb in lblocks or any(b.dominates(x, bb) for x in lblocks if x == hdr.bb), "R-C18-1", "ok-in-loop", "the Ok(..) return is inside the bounded loop", "an Ok(..) return lies outside the iteration loop", loc_str(s.span))
         # normalisation dominates the test
         sq = [t for t in b.calls() if t.callee and t.callee.short.endswith("f64::sqrt") and t.bb in lblocks]
